@@ -91,6 +91,8 @@ def min_version(recipe) -> int:
     allvars = list(recipe.get("vars", {}).values()) + [d for r in recipe.get("routines", []) for d in r.get("locals", {}).values()]
     if any(d.get("kind") == "abi" for d in allvars):
         v = max(v, 5)  # abi.String set/get lower to extract-family ops
+    if any(r.get("kind") == "abi" for r in recipe.get("routines", [])):
+        v = max(v, 5)
     if recipe.get("routines"):
         v = max(v, 4)
         if any(p[2] == "ref" for r in recipe["routines"] for p in r["params"]):
